@@ -375,6 +375,7 @@ class Ctx:
 
     def finish(self):
         wall = time.time() - self.t0
+        self.known_lines = list(dict.fromkeys(self.known_lines))
         pr = self.proof
         cov = dict(self.cov)
         cov.setdefault("evaluations", 0)
@@ -406,6 +407,7 @@ class Ctx:
         with open(tmp, "w") as f:
             json.dump(ev, f, indent=1, default=str)
         os.replace(tmp, os.path.join(EVIDENCE, "%s.json" % self.prop))
+        self.known_lines = list(dict.fromkeys(self.known_lines))
         for k in self.known_lines:
             print("KNOWN-FINDING: property=%s %s" % (self.prop, k))
         for v in self.violations:
